@@ -78,3 +78,29 @@ Theorem C12_modes_agree_from_text : forall cfgP cfgA parse_float regex_ok ffun a
     end.
 Proof. exact modes_agree_from_text. Qed.
 Print Assumptions C12_modes_agree_from_text.
+
+(* Functions after steps and filters (FiltAgg.v, ModesFun): `$` steps-and-filters `.f()` `.g()` … under two configurations that
+   differ only in the accessor flag — the same values in the same order (in accessor mode each wrapped in an accessor without a
+   location, Set nil), or both fail; and the user functions receive the SAME calls (plain values) in both modes. *)
+From JP Require Import FiltChain FiltChainAddr FiltFun FiltAgg FunParse FunAddr.
+Theorem C12_functions_after_filters_from_text : forall cfgP cfgA parse_float regex_ok ffun afun regex_match,
+  (forall f v w, small v -> ffun f v = Some w -> small w) ->
+  (forall f l w, Forall small l -> afun f l = Some w -> small w) ->
+  cfg_accessor cfgP = false -> cfg_accessor cfgA = true -> cfg_filters cfgP = cfg_filters cfgA ->
+  forall x r f fs doc st st',
+  forallb fstep_ok (x :: r) = true -> forallb (fstep_okp parse_float regex_ok) (x :: r) = true ->
+  forallb fname_ok (f :: fs) = true -> forallb (fun_known cfgP) (f :: fs) = true -> small doc -> ok st -> ok st' ->
+  exists tP tA, parse_with cfgP parse_float regex_ok jsonpath_grammar (fchain_fun_path (x :: r) (f :: fs)) = ParseOk tP /\
+                parse_with cfgA parse_float regex_ok jsonpath_grammar (fchain_fun_path (x :: r) (f :: fs)) = ParseOk tA /\
+    match fun_vals ffun (f :: fs) (nav_allf parse_float regex_match doc (x :: r) ([], doc)) with
+    | [] => (exists e, fst (eval_run ffun afun regex_match tP doc st) = OErr e) /\ (exists e, fst (eval_run ffun afun regex_match tA doc st') = OErr e)
+    | l => fst (eval_run ffun afun regex_match tP doc st) = OOk (map RVal l) /\
+           fst (eval_run ffun afun regex_match tA doc st') = OOk (map (RAcc false None) l)
+    end /\
+    exists cs, calls (snd (eval_run ffun afun regex_match tP doc st)) = calls st ++ cs /\
+               calls (snd (eval_run ffun afun regex_match tA doc st')) = calls st' ++ cs.
+Proof.
+  intros cfgP cfgA pf rok ffun afun rm Hf Ha Hp HA Hfl x r f fs doc st st'.
+  exact (modes_agree_functions cfgP cfgA pf rok ffun afun rm Hf Ha Hp HA Hfl x r f fs doc st st').
+Qed.
+Print Assumptions C12_functions_after_filters_from_text.
